@@ -334,6 +334,25 @@ func TestVerif_C03(t *testing.T) {
 			R.Note("cannot open the gsfa pubkey index: %v", err)
 		}
 	}
+	// epoch B2: a NEWER epoch in which the constructed colliding addresses do have history (they are static keys of
+	// two of its transactions), while they still collide with a stored address in epoch A's address index
+	var eB2 *vEpoch
+	if task(3) && len(addrColliders) > 0 {
+		shB2 := cargen.SimpleShape(2, 5, 3, 2)
+		var ks [][32]byte
+		for _, a := range addrColliders {
+			ks = append(ks, [32]byte(a))
+		}
+		shB2.Blocks[1].Entries[0][0].Keys = ks
+		shB2.Blocks[2].Entries[0][1].Keys = ks
+		e, err := vkBuildEpoch(filepath.Join(base, "B2"), shB2, true)
+		if err != nil {
+			R.Internal("cannot build epoch B2: %v", err)
+			return
+		}
+		e.writeConfig(vkConfigOpts{})
+		eB2 = e
+	}
 	// legacy world: the same epoch served through a deprecated cid-to-offset index (config names
 	// indexes.cid_to_offset only), with absent CIDs colliding in THAT index
 	var legacyCidColliders []cid.Cid
@@ -401,10 +420,14 @@ func TestVerif_C03(t *testing.T) {
 		two    bool
 		config string
 		cids   []cid.Cid
+		epochB *vEpoch // the second epoch of a two-epoch world
 	}
-	worlds := []c03WorldCfg{{"one-epoch", false, eA.ConfigPath, cidColliders}, {"two-epochs", true, eA.ConfigPath, cidColliders}}
+	worlds := []c03WorldCfg{{"one-epoch", false, eA.ConfigPath, cidColliders, nil}, {"two-epochs", true, eA.ConfigPath, cidColliders, eB}}
+	if eB2 != nil {
+		worlds = append(worlds, c03WorldCfg{"two-epochs/colliding-address-has-history-in-the-newer-epoch", true, eA.ConfigPath, nil, eB2})
+	}
 	if legacyConfig != "" {
-		worlds = append(worlds, c03WorldCfg{"one-epoch/legacy-cid-to-offset-index", false, legacyConfig, legacyCidColliders})
+		worlds = append(worlds, c03WorldCfg{"one-epoch/legacy-cid-to-offset-index", false, legacyConfig, legacyCidColliders, nil})
 	}
 	for _, wc := range worlds {
 		two, label, cidColliders := wc.two, wc.label, wc.cids
@@ -421,7 +444,7 @@ func TestVerif_C03(t *testing.T) {
 		}
 		eps := []*Epoch{epA}
 		if two {
-			epB, err := vkLoadEpoch(eB.ConfigPath, cache)
+			epB, err := vkLoadEpoch(wc.epochB.ConfigPath, cache)
 			if err != nil {
 				R.Internal("load B: %v", err)
 				return
@@ -564,7 +587,40 @@ func TestVerif_C03(t *testing.T) {
 			}
 			var m map[string]interface{}
 			json.Unmarshal(resp, &m)
-			if res, ok := m["result"].([]interface{}); ok && len(res) > 0 {
+			res, _ := m["result"].([]interface{})
+			if wc.epochB == eB2 && eB2 != nil {
+				// the address has history in B2 only: every returned signature must be one of ITS transactions, and
+				// all of them must be there
+				own := map[string]bool{}
+				for _, tx := range eB2.Truth.Txs {
+					for _, k := range tx.Accounts {
+						if k == a {
+							own[tx.Sig.String()] = true
+						}
+					}
+				}
+				got := map[string]bool{}
+				for _, r := range res {
+					rm, _ := r.(map[string]interface{})
+					sg, _ := rm["signature"].(string)
+					got[sg] = true
+					if !own[sg] {
+						viol("getSignaturesForAddress|colliding-address-with-history-elsewhere", fmt.Sprintf("getSignaturesForAddress(%s): signature %s (slot %v) belongs to a transaction that does not mention the address (the address collides with a stored one in the older epoch's index and has %d transactions in the newer epoch)", a, sg, rm["slot"], len(own)), map[string]interface{}{"address": a.String()})
+						break
+					}
+				}
+				if len(own) == 0 {
+					R.Internal("generator: colliding address %s is not in any transaction of epoch B2", a)
+					return
+				}
+				for sg := range own {
+					if !got[sg] {
+						R.Note("[%s] getSignaturesForAddress(%s) does not list its transaction %s (answer: %.200s)", label, a, sg, resp)
+					}
+				}
+				continue
+			}
+			if len(res) > 0 {
 				viol("getSignaturesForAddress|colliding-address", fmt.Sprintf("getSignaturesForAddress(%s): the address has no history, but %d signatures of other addresses' transactions were returned (first: %v)", a, len(res), res[0]), map[string]interface{}{"address": a.String()})
 			}
 		}
